@@ -118,6 +118,41 @@ fn write_key_file(guid: &str, key: &str) {
 
 pub async fn custom_step(run: &mut Run, idx: usize, kind: &str, s: &Value) -> bool {
     match kind {
+        "own_calls" => {
+            // the agent's own host clients (goal state, shared config, instance metadata), driven through their public API
+            // with the running agent's shared state, in the background: their signatures are judged at the host like
+            // every other request (C04/C10), while the key keeper rotates keys and the host fails some answers
+            if let Some(agent) = run.agent.clone() {
+                let n = s["n"].as_u64().unwrap_or(20);
+                let gap = s["gap_ms"].as_u64().unwrap_or(50);
+                let which = s["which"].as_u64().unwrap_or(0);
+                let kk = agent.get_key_keeper_shared_state();
+                vrt::sched::spawn_perturbed(async move {
+                    use azure_proxy_agent::host_clients::imds_client::ImdsClient;
+                    use azure_proxy_agent::host_clients::wire_server_client::WireServerClient;
+                    let ws = WireServerClient::new("168.63.129.16", 80, kk.clone());
+                    let imds = ImdsClient::new("169.254.169.254", 80, kk.clone());
+                    for i in 0..n {
+                        match (which + i) % 3 {
+                            0 => {
+                                if let Ok(gs) = ws.get_goalstate().await {
+                                    let _ = ws.get_shared_config(gs.get_shared_config_uri()).await;
+                                }
+                            }
+                            1 => {
+                                let _ = ws.get_goalstate().await;
+                            }
+                            _ => {
+                                let _ = imds.get_imds_instance_info().await;
+                            }
+                        }
+                        let _ = vrt::try_with(|w| w.count("probe.own_call_rounds"));
+                        tokio::time::sleep(std::time::Duration::from_millis(gap)).await;
+                    }
+                });
+            }
+            true
+        }
         "host_latch" => {
             let mut g = run.hosts.lock().unwrap();
             match s["mode"].as_str().unwrap_or("new") {
@@ -303,6 +338,8 @@ pub fn gen_c10(seed: u64, tier: &str) -> Value {
     steps.push(json!({"t": "wait_polls", "n": 2, "max_s": 300}));
     let rounds = 2 + r.below(if tier == "thorough" { 6 } else { 4 });
     let mut tokn = 0u64;
+    let faults = r.chance(1, 3);
+    let own_calls = r.chance(1, 2);
     for k in 0..rounds {
         // load that overlaps the rotation: clients start at staggered offsets within the next few seconds
         let mut conns = Vec::new();
@@ -326,7 +363,28 @@ pub fn gen_c10(seed: u64, tier: &str) -> Value {
             2 => json!({"t": "host_latch", "mode": "new"}),
             _ => json!({"t": "host_latch", "mode": "rotate_with_file"}),
         };
+        if own_calls {
+            // the agent's own clients call the host all along this round
+            steps.push(json!({"t": "own_calls", "n": 5 + r.below(40), "gap_ms": *r.pick(&[1u64, 10, 60, 250]), "which": r.below(3)}));
+        }
+        if faults {
+            // the rotation meets a host that fails or stalls key negotiation steps, and an upstream that misbehaves
+            for _ in 0..r.below(3) {
+                let kind = *r.pick(&["acquire", "attest", "status", "goalstate", "sharedconfig", "imds_instance", "goalstate"]);
+                let f = match r.below(4) {
+                    0 => json!({"f": "status", "status": *r.pick(&[500u64, 503])}),
+                    1 => json!({"f": "reset_after"}),
+                    2 => json!({"f": "reset_before"}),
+                    _ => json!({"f": "stall", "ms": *r.pick(&[5u64, 200, 1500])}),
+                };
+                steps.push(json!({"t": "host_fault", "kind": kind, "fault": f}));
+            }
+            crate::gen::gen_upstream_faults(&mut r, &mut steps);
+        }
         steps.push(json!({"t": "clients_with", "conns": conns, "during": [{"after_ms": r.below(1200), "do": rot}], "round": k}));
+        if faults {
+            steps.push(json!({"t": "clear_faults"}));
+        }
         if r.chance(1, 3) {
             steps.push(json!({"t": "doc", "doc": doc_v1(*r.pick(&["wireserver", "wireserverandimds"]))}));
         }
@@ -498,6 +556,16 @@ pub fn gen_c12(seed: u64, tier: &str) -> Value {
                 }
             }
             conns.push(json!({"proc": r.below(3), "dst": dst, "start_ms": r.below(50), "reqs": [{"method": "GET", "target": target, "headers": hs, "tok": format!("t{}", tokn)}]}));
+        }
+        // clients that go away while their request is being handled: the handler is cancelled at whatever await it has
+        // reached (rule lookups, the key read, the upstream call)
+        if r.chance(1, 2) {
+            for _ in 0..1 + r.below(6) {
+                let dst = *r.pick(&["imds", "wire", "ga"]);
+                tokn += 1;
+                let how = format!("{}:{}:{}", *r.pick(&["reset_after_send", "reset_after_send", "fin_after_send"]), *r.pick(&[0u64, 0, 0, 1, 3]), r.below(40));
+                conns.push(json!({"proc": 0, "dst": dst, "start_ms": r.below(50), "close": how, "reqs": [{"method": *r.pick(&["GET", "POST"]), "target": "/metadata/instance?api-version=2018-02-01", "headers": [["Host", host_name_of(dst)], ["Metadata", "true"]], "tok": format!("t{}", tokn)}]}));
+            }
         }
         steps.push(json!({"t": "clients", "conns": conns}));
     }
